@@ -233,6 +233,50 @@ def execute(ctx, cases, corr):
         corr["samples"].append({"case": c.hline[:300], "impl": (c.impl or "")[:200], "model": (c.model or "")[:200]})
 
 
+def run_miri(ctx, cases, corr, per_tag=12, limit=700):
+    """thorough tier: replay a stratified sample of the cases under Miri (which traps undefined
+    behaviour that does not crash natively); outcome must equal the native one"""
+    import gen as _gen
+    by = {}
+    for c in cases:
+        if c.kind not in ("req", "dec", "arb") or len(c.hline) > 6000 or c.impl is None:
+            continue
+        by.setdefault((c.cfg, c.feats), {}).setdefault(c.tag, []).append(c)
+    total = 0
+    for (cfg, feats), tags in sorted(by.items()):
+        if cfg not in ("000", "111"):
+            continue
+        sample = []
+        for tag, cs in sorted(tags.items()):
+            cs = sorted(cs, key=lambda c: len(c.hline))
+            step = max(1, len(cs) // per_tag)
+            sample += cs[::step][:per_tag]
+        sample = sample[:limit]
+        fl = [f for f, b in zip(_gen.WIRE_FEATURES, cfg) if b == "1"] + list(feats)
+        cmd = ["cargo", "+nightly", "miri", "run", "--offline", "--target-dir", os.path.join(ROOT, "build", "target-miri")]
+        if fl:
+            cmd += ["--features", ",".join(fl)]
+        env = dict(os.environ, CARGO_NET_OFFLINE="true", MIRIFLAGS="-Zmiri-disable-isolation")
+        p = subprocess.run(cmd, cwd=os.path.join(ROOT, "harness"), input="\n".join(c.hline for c in sample) + "\n",
+                           stdout=subprocess.PIPE, stderr=subprocess.PIPE, text=True, env=env)
+        outs = p.stdout.split("\n")
+        if outs and outs[-1] == "":
+            outs.pop()
+        total += len(outs)
+        for c, o in zip(sample, outs):
+            if o != c.impl:
+                m = Case(c.kind, c.cfg, c.hline, c.lline, tag="miri: " + c.tag, impl=o, model=c.model, feats=c.feats)
+                m.oracle = "same outcome as the native build: " + c.impl[:200]
+                corr["oracle_failures"].append(m)
+        if len(outs) < len(sample):
+            c = sample[len(outs)]
+            err = [l for l in p.stderr.splitlines() if "error" in l][:3]
+            m = Case(c.kind, c.cfg, c.hline, c.lline, tag="miri: " + c.tag, impl="miri-abort", model=c.model, feats=c.feats)
+            m.oracle = "no undefined behaviour; Miri: " + " | ".join(err)[:400]
+            corr["oracle_failures"].append(m)
+    corr["stats"]["miri:cases"] = total
+
+
 def match_known(known, pid, case):
     for f in known.get("findings", []):
         if f["property"] != pid:
@@ -1359,7 +1403,7 @@ def cases_c04(ctx, boost):
         if ctx.tier == "thorough":
             for b in range(256):
                 out.append(np(Case("sweep", cfg, f"sweep {cfg} {b:02x} 2", tag="all inputs of length 3")))
-            for b in PARAM_BYTES:
+            for b in (PARAM_BYTES if cfg in ("000", "111") else []):
                 for b2 in range(256):
                     out.append(np(Case("sweep", cfg, f"sweep {cfg} {b:02x}{b2:02x} 2", tag="length 4, parameter-bearing command")))
         else:
@@ -1551,7 +1595,7 @@ PROPS = {
             "rule": "every type with both Serialize and Deserialize × member subsets × boundary/random member values; values "
                     "built through the public API (builders, Default, field assignment) and by decoding reference bytes",
             "assumptions": ["enumerations and COSE keys are values of their Rust types (in the tables / <= 32-byte coordinates)"]},
-    "C13": {"ns": "C13", "cases": cases_c13,
+    "C13": {"ns": "C13", "cases": cases_c13, "miri": True,
             "level_text": "Proof. UTF-8 theory in Lean (Ctap/Utf8Thm.lean): validUtf8 peels one scalar of 1-4 bytes at a time "
                           "(validUtf8_step), each scalar is one boundary byte + <=3 continuation bytes (scalar_shape), hence "
                           "floor_char_boundary with a 3-byte look-back never reaches unwrap_unchecked(None) on well-formed text "
@@ -1640,7 +1684,7 @@ PROPS = {
                     "harness has that const-generic instantiation, 64,256,1024,3072,7609} × prior {empty, half, full sentinel}",
             "assumptions": ["capacity >= 1 (the property's hypothesis; capacity 0 would panic in split_first_mut().unwrap())",
                             "the serializer's chunking is abstracted: the theorem holds for every chunking"]},
-    "C04": {"ns": "C04", "cases": cases_c04, "uses": ["decode_never_panics", "truncateStr_valid"],
+    "C04": {"ns": "C04", "cases": cases_c04, "miri": True, "uses": ["decode_never_panics", "truncateStr_valid"],
             "level_text": "Proof (partial: the model's part). The decoder model is a total Lean function over the regenerated "
                           "schemas (termination: structural recursion on the schema, element counts and a byte-length fuel "
                           "for the skipper; determinism: functionality) whose result type has an explicit outcome for every "
